@@ -329,6 +329,7 @@ func c01(p *core.Program, r *core.Report) {
 		}
 	}
 
+	multiPointEndsRule(p, r, "multipoint-ends")
 	strideRule(p, r, "stride-discipline", []strideTarget{{"", "inflate0", "all"}, {"", "inflate1", "all"}, {"", "inflate2", "all"}, {"", "inflate3", "all"}})
 
 	r.Assume("that the offsets computed for every nesting shape are right (inflate3 over arbitrary empty rows) needs an inductive argument over data and is not decided; New*Flat with inconsistent arguments is outside the property")
@@ -496,6 +497,8 @@ func c02(p *core.Program, r *core.Report) {
 		}
 		r.Check(bad == "", r2, core.FuncName(e), p.Pos(e.Pos()), true, fmt.Sprintf("%d write sites, all on flatCoords elements", len(ws)), bad)
 	}
+
+	strideRule(p, r, "reverse-whole-coordinates", []strideTarget{{"", "reverse1", "all"}, {"", "reverse2", "all"}, {"", "reverse3", "all"}})
 
 	// ---- rule 3: Swap exchanges whole values
 	const r3 = "swap-complete"
